@@ -200,11 +200,17 @@ def run_histories(ctx, props, profile_for, master_every=4, mprofile_for=None):
     from ..master import engine as mengine
     from ..master import drv as mdrv
     for idx, rng in ctx.cases():
+        if props and props[0] in ('C05', 'C06') and idx % 8 == 5:
+            # the real Master.run_loop() on two threads with operator commands at the joints of the start-up sequence and
+            # while the master is busy with a batch of events (vf/master/realloop.py)
+            from ..master import realloop
+            realloop.real_loop_case(ctx, idx, rng, props[0])
+            continue
         if master_every and idx % master_every == master_every - 1:
             mh = mengine.MHistory(ctx, rng, mprofile_for(rng) if mprofile_for else mdrv.MProfile(), props)
-            if 'C04' in props:
+            if 'C04' in props or 'C05' in props:
                 from ..master import crash
-                mh.d.cutter = crash.HeadroomSession(mh, ctx)
+                mh.d.cutter = crash.HeadroomSession(mh, ctx, 'C04' if 'C04' in props else 'C05')
             try:
                 mh.run()
             finally:
